@@ -167,8 +167,13 @@ def run(ctx):
 
     CH = 5 if ctx.tier == "quick" else 12
     jobs, offs = [], []
-    for off in range(0, len(cases), CH):
-        chunk = cases[off:off + CH]
+    # size-class cases (long byte strings) get a coqc each and are started first
+    groups = [[i] for i, c in enumerate(cases) if c.get("big")]
+    small = [i for i, c in enumerate(cases) if not c.get("big")]
+    groups += [small[k:k + CH] for k in range(0, len(small), CH)]
+    for grp in groups:
+        chunk = [cases[i] for i in grp]
+        off = grp
         lit = vlib.coq_list(chunk, case_literal)
         jobs.append(("cases", "From NV Require Import Shard.Dump Shard.DumpCheck.\nFrom Coq Require Import List NArith. Import ListNotations.\n"
                      "Definition cases : list case := %s.\n" % lit,
@@ -180,7 +185,7 @@ def run(ctx):
             ctx.tie(False)
             return
         for k2 in bad:
-            bad[k2] |= {off + i for i in res[k2]}
+            bad[k2] |= {off[i] for i in res[k2]}
     ctx.tie(not bad["dump"])    # Shard.Dump bytes = model dump of exactly the stored objects
     ctx.tie(not bad["model"])   # Shard.Restore = model restore (all kinds of streams)
     ctx.tie(not bad["ref"])     # Shard.Restore = theorem right-hand sides (clean / body-damaged / bad magic)
